@@ -16,6 +16,7 @@ class Check:
                     "samples": [], "stages": {}, "trusted_base": []}
         self.assumptions = []
         self.violations = []      # (replay_path, description)
+        self.deferred = []
         self.known_used = []
         self.drift = []
         self.work = vlib.workdir(prop + ("_replay" if replay else ""))
@@ -104,7 +105,15 @@ class Check:
             self.cov["samples"].append(s)
 
     # ---- finish -------------------------------------------------------------------------
+    def defer(self, msg):
+        """A vacuity guard on what a RUN of the code under test exercised: reported as a tool error at the end,
+        and only if nothing was rejected -- a change to the code that empties a counter is a rejected trace first."""
+        log(f"[{self.prop}] (deferred) {msg}")
+        self.deferred.append(msg)
+
     def finish(self):
+        if self.deferred and not self.violations:
+            raise vlib.ToolError("; ".join(self.deferred))
         vlib.report_known(self.prop, self.known_used)
         # a listed known finding that no stage needed is reported as stale (informational)
         stale = [k["id"] for k in vlib.known_findings(self.prop) if k["id"] not in self.known_used]
